@@ -19,7 +19,7 @@ def declare4(S: Spec):
            "s is not None and s.executor is not None and s.executor.num_pools >= 0 and ps is not None"
            " and all(i in ps and ps[i] is not None and 'avail_cpu' in ps[i] and 'avail_ram' in ps[i] for i in range(0, s.executor.num_pools))")
     S.pred("Usable", [("ps", STATS), ("i", INT)], "ps[i]['avail_cpu'] > 0 and ps[i]['avail_ram'] > 0")
-    S.fn(f"{MPR}:get_pool_with_max_avail_ram", owners=["C12"],
+    S.fn(f"{MPR}:get_pool_with_max_avail_ram", owners=["C12", "C08"],
          params={"s": Ref("Scheduler"), "pool_stats": STATS}, returns=INT, locals={"id_": INT, "max_ram": REAL, "i": INT},
          requires=["StatsOK(s, pool_stats)"],
          ensures=[("minus-one-only-when-every-pool-is-out-of-cpu-or-ram",
@@ -43,7 +43,7 @@ def declare4(S: Spec):
            " for op in keys(p._runtime_status.operator_states))")
     # ---- monitor-only round clauses (evaluated on the real code in the bounded scenarios) --------------------------------
     QS = "len(s.qry_jobs) + len(s.interactive_jobs) + len(s.batch_ppln_jobs)"
-    c = S.fn(f"{MPR}:priority_scheduler", owners=["C12"],
+    c = S.fn(f"{MPR}:priority_scheduler", owners=["C12", "C08"],
              params={"s": Ref("Scheduler"), "results": List(Ref("ExecutionResult")), "pipelines": List(Ref("Pipeline"))},
              returns=Tuple(List(Ref("Suspend")), List(Ref("Assignment"))), requires=[], ensures=[],
              raises={"AssertionError": [], "KeyError": [], "ValueError": []}, modifies=["star('*')"],
